@@ -36,7 +36,7 @@ PARTS = {
     "BYMONTHDAY": (1, -1, (1, 15, -1)),
     "BYYEARDAY": (1, -1, (100, -100)),
     "BYWEEKNO": (1, -1, (20, 53)),
-    "BYMONTH": (1, (6, 12), "5L", (5, "5L"), ("7L", 7)),
+    "BYMONTH": (1, (6, 12), "5L", (5, "5L"), ("7L", 7), "12L", ("10L", 3, "11L", 12)),
     "BYSETPOS": (1, -1, (1, -1)),
     "WKST": ("MO", "SU"),
     "RSCALE": ("GREGORIAN", "HEBREW"),
@@ -393,8 +393,11 @@ def emit_rules(first):
     for freq in FREQS:
         for combo in [()] + [(p,) for p in names]:
             for idx in itertools.product(*[range(len(PARTS[p])) for p in combo]):
-                r, _ = build(("r", "kw", freq, tuple(zip(combo, idx)), False, False))
-                h.update(r.to_ical() + b"\n")
+                try:
+                    r, _ = build(("r", "kw", freq, tuple(zip(combo, idx)), False, False))
+                    h.update(r.to_ical() + b"\n")
+                except Exception as e:  # noqa: BLE001 - judged by the rules space; here only "the same in every process"
+                    h.update(type(e).__name__.encode() + b"\n")
                 n += 1
     print(h.hexdigest(), n)
 
